@@ -28,7 +28,11 @@ REPLAY_DIR = os.path.join(VERIF, "replay")
 EVIDENCE_DIR = os.path.join(VERIF, "evidence")
 STD_AXIOMS = {"propext", "Classical.choice", "Quot.sound"}
 DRIVER = os.path.join(LEAN_DIR, ".lake", "build", "bin", "driver")
-TARGET = os.path.join(CACHE, "target")
+# A scratch repo (VERIF_REPO=...) gets its own cargo target dir: harness crates see the repo through the
+# harness/repo symlink, and cargo's mtime fingerprints do not notice that the symlink now points at *older*
+# files when it is switched back to /repo (a stale mutant build would then be tested as "/repo").
+TARGET = os.path.join(CACHE, "target" if os.path.realpath(REPO) == os.path.realpath("/repo")
+                      else "target-" + hashlib.sha256(os.path.realpath(REPO).encode()).hexdigest()[:8])
 
 sys.path.insert(0, os.path.join(VERIF, "tools"))
 
